@@ -124,6 +124,32 @@ class UPred:
         return fn(*flat) if flat else z3.Const(self.name + "!const", sort_for_kind(self.result_kind))
 
 
+class ObjMethod:
+    """attribute `attr` of an opaque object: as a value it is the opaque object attr(base); called, it is an unknown function of the
+    receiver and the arguments (equal receiver and arguments give the equal result; nothing else is known)"""
+
+    def __init__(self, base, attr):
+        self.base = base
+        self.attr = attr
+        self.value = z3.Function("attr." + attr, OBJ_SORT, OBJ_SORT)(base)
+
+    def leaves(self):
+        return [self.value]
+
+    def rebuild(self, leaves):
+        return leaves[0]
+
+    def sig(self):
+        return ("scalar", "Obj")
+
+
+_OBJ_TRUTHY = z3.Function("obj.truthy", OBJ_SORT, z3.BoolSort())
+
+
+def is_obj(v):
+    return is_sym(v) and v.sort() == OBJ_SORT
+
+
 class SuperRef:
     """`super()` inside a method of a repository class: the receiver and the base class the lookup continues at"""
 
@@ -571,6 +597,8 @@ class Interp:
                 if k == "__names__":
                     env[k] = dict(base.env.get(k, {}))
                     continue
+                if k == "__events__" and a.env.get(k) is not b.env.get(k):
+                    return None  # different recorded calls on the two sides: keep the paths apart
                 if k.startswith("__") and k in a.env and k in b.env and a.env[k] is b.env[k]:
                     env[k] = a.env[k]
                     continue
@@ -1044,6 +1072,10 @@ def truthy_value(interp, st, v):
     """python truthiness of any value"""
     if v is None:
         return False
+    if isinstance(v, ObjMethod):
+        v = v.value
+    if is_obj(v):
+        return _OBJ_TRUTHY(v)  # the truth value of an object we do not look into: an unknown but fixed function of it
     if isinstance(v, (bool, int, float, str)) or is_sym(v):
         return truthy(v)
     if isinstance(v, (list, tuple, dict)):
